@@ -108,6 +108,20 @@ def adpStep (st : AdpSt) (toks : List String) : Option (AdpSt × String) :=
         | none => init
       some ({ st with w := { ov := ov', lims }, stages, batched, sub := id, hasPipe := true },
             "init=" ++ showList shown)
+  | ["stack", spec] =>
+    -- use the current outermost adapter itself as the observer for one more stage
+    if !st.hasPipe then some (st, "bad-op") else
+    match parseSpec spec, st.stages with
+    | some sp, top :: _ =>
+      match top.intoParts with
+      | none => some (st, "bad-op")
+      | some init =>
+        let nl := match specLims sp with | some k => max st.w.lims.length (k + 1) | none => st.w.lims.length
+        let lims := st.w.lims ++ List.replicate (nl - st.w.lims.length) ({ q := [], closed := false, waiting := false } : Lim)
+        let (ns, v) := mkStage T init sp
+        let shown := if specIsPureDynamic sp then [] else v
+        some ({ st with w := { st.w with lims }, stages := ns :: st.stages }, "handed=" ++ showList init ++ " init=" ++ showList shown)
+    | _, _ => some (st, "bad-op")
   | ["ppoll"] =>
     if !st.hasPipe then some (st, "bad-op") else
     match pollStages T st.batched st.sub 100000 st.stages st.w with
